@@ -30,7 +30,7 @@ def pair_inst(to, frm, tier):
                 '%s& to, const volatile %s& from' % (to, frm),
                 'detail::convert_type_fundamental(to, from);',
                 contract, harness, leaves=['dynamic_check'], prop=PROP, root_name='convert_type_fundamental', tier=tier,
-                pre='_Bool g_noabort; _Bool g_backend_nonnull;',
+                pre='_Bool g_noabort; _Bool g_backend_nonnull; unsigned long g_expect_example; unsigned long g_expect_malloc_size;',
                 replay={'kind': 'convert', 'to': to, 'from': frm},
                 note='T_To=%s T_From=%s' % (to, frm))
 
